@@ -1040,6 +1040,15 @@ class Evaluator:
                 if "Optional" in txt or "None" in txt or "Union" in txt:
                     return False
                 return self.ann_class(cands[0].node.returns, cands[0].module) is not None
+        if t[0] == "call" and isinstance(t[1], tuple) and t[1][0] == "attr":
+            bc = self.type_of(t[1][1])
+            if bc is not None:
+                fs = bc.resolve_all(t[1][2])
+                if len(fs) == 1 and fs[0].node.returns is not None and fs[0].kind in ("method", "staticmethod", "classmethod"):
+                    txt = ast.unparse(fs[0].node.returns)
+                    # declared to hand back a list / an object of the package, not an Optional
+                    return not ("Optional" in txt or "None" in txt or "Union" in txt or "Any" in txt) and \
+                        (txt.startswith(("List[", "list[", "Dict[", "Tuple[")) or self.ann_class(fs[0].node.returns, fs[0].module) is not None)
         return False
 
     def _instance_assigned(self, c: ClassInfo, name: str) -> bool:
@@ -1055,6 +1064,17 @@ class Evaluator:
                                 hit = True
             cache[key] = hit
         return cache[key]
+
+    def star_parts(self, v: Term) -> Optional[List[Term]]:
+        while v[0] == "var" and len(v) == 4 and v[3][0] in ("tuple", "list", "new"):
+            v = v[3]
+        if v[0] in ("tuple", "list") and not any(x[0] == "star" for x in v[1]):
+            return list(v[1])
+        if v[0] == "new":
+            c = self.model.maybe_cls(v[1])
+            if c is not None and is_named_tuple(c):
+                return self.unpack(v, len(named_tuple_fields(c)))
+        return None
 
     def unpack(self, v: Term, n: int) -> Optional[List[Term]]:
         """the n components of a value that is unpacked: a display, or a NamedTuple built on the spot (field order)"""
@@ -1230,7 +1250,12 @@ class Evaluator:
         args = []
         for a in e.args:
             if isinstance(a, ast.Starred):
-                args.append(("star", self.expr(a.value, fr)))
+                sv = self.expr(a.value, fr)
+                parts = self.star_parts(sv)
+                if parts is not None:
+                    args.extend(parts)      # ``f(*<display or NamedTuple built here>)`` passes its components
+                else:
+                    args.append(("star", sv))
             else:
                 args.append(self.expr(a, fr))
         kwargs = []
@@ -1380,6 +1405,19 @@ class Evaluator:
                 if c is not None:
                     return self.construct(c, args, kwargs, fr)
         f = self.expr(e.func, fr)
+        if f[0] == "ite":
+            # calling a two-way choice of callables is the two-way choice of the calls
+            def call_of(g):
+                if g[0] == "ite":
+                    return t_ite(g[1], call_of(g[2]), call_of(g[3]))
+                if g[0] == "attr":
+                    bc = self.type_of(g[1])
+                    if bc is not None:
+                        fs = bc.resolve_all(g[2])
+                        if len(fs) == 1 and fs[0].kind in ("method", "staticmethod", "classmethod"):
+                            return self.call_function(fs[0], g[1], bc, args, kwargs, fr)
+                return ("call", g, tuple(args), tuple(kwargs))
+            return call_of(f)
         return ("call", f, tuple(args), tuple(kwargs))
 
     # -- functional builtins as comprehensions ------------------------------------------------------------
